@@ -57,6 +57,9 @@ func VerifC12Will() {
 		vAssert(conn.isClosed(), "refused connection is closed")
 	}
 	disconnect := false
+	if accepted && hasWill {
+		be.failPublish = vBool("willpublishfails") // the backend may refuse the will
+	}
 	if accepted {
 		switch vChoice("cause", 6) {
 		case 0:
@@ -99,4 +102,58 @@ func VerifC12Will() {
 	}
 	vAssert(vLive() == 0, "no goroutine of the connection is left")
 	vCover("c12-will-end")
+}
+
+// VerifC12Resume: the end strikes during the tail of connect processing of a resumed
+// session (after the CONNACK was written): retransmission of a stored packet fails, or the
+// backend's Restore fails. The client was accepted, so its will must be published.
+type restoreBackend struct {
+	*recBackend
+	failRestore bool
+}
+
+func (r *restoreBackend) Restore(c *Client) error {
+	if r.failRestore {
+		return ErrClosing
+	}
+	return r.recBackend.Restore(c)
+}
+
+func VerifC12Resume() {
+	be := &restoreBackend{recBackend: newRecBackend()}
+	// first connection: persistent session with a QoS 1 message in flight, then lost
+	c1, conn1 := startClient(be, mkConnect("c", false, nil), false)
+	s := packet.NewSubscribe()
+	s.ID = 1
+	s.Subscriptions = []packet.Subscription{{Topic: "x", QOS: 1}}
+	conn1.in <- s
+	vQuiesce()
+	pub, _ := mkClient(be.MemoryBackend, "p", true)
+	vAssert(be.MemoryBackend.Publish(pub, &packet.Message{Topic: "x", Payload: []byte{1}, QOS: 1}, nil) == nil, "publish")
+	vQuiesce()
+	vAssert(countType(conn1, packet.PUBLISH) == 1, "message in flight")
+	close(conn1.in)
+	vQuiesce()
+	vAssert(chanClosed(c1.Closed()), "first connection gone")
+	// second connection resumes, with a will; sends may fail, Restore may fail
+	be.failRestore = vBool("restorefails")
+	conn2 := newVConn(true)
+	c2 := NewClient(be, conn2)
+	conn2.in <- mkConnect("c", false, &packet.Message{Topic: "will", Payload: []byte{7}, QOS: 0})
+	vQuiesce()
+	connackWritten := countType(conn2, packet.CONNACK) == 1
+	ended := conn2.isClosed()
+	if !ended {
+		close(conn2.in) // network error later on
+		vQuiesce()
+	}
+	if connackWritten {
+		vCover("c12-resume-accepted")
+		vAssert(be.publishesOf(c2, "will") == 1, "an accepted client that ends without DISCONNECT gets its will published exactly once, also when it ends during the resend phase")
+	} else {
+		vAssert(be.publishesOf(c2, "will") <= 1, "never more than one will")
+	}
+	vAssert(be.terminatesOf(c2) == 1, "Terminate exactly once")
+	vAssert(chanClosed(c2.Closed()), "closed signal fires")
+	vCover("c12-resume-end")
 }
